@@ -9,6 +9,7 @@ import (
 	"os"
 	"sort"
 	"strings"
+	"syscall"
 	"testing/fstest"
 	"time"
 
@@ -748,12 +749,19 @@ var c05LongGoals = []string{
 	"functor(T, f, %d), T =.. L, length(L, K).",
 }
 
+// writing in functional notation nests as deep as the list is long; 30000 elements are 480 KB of cells
+var c05CanonGoals = []string{"length(L, 30000), write_canonical(L).", "length(L, 30000), write_term(L, [ignore_ops(true)]).", "length(L, 30000), acyclic_term(L).", "mk(30000, L), write_canonical(L).", "mk(30000, L), acyclic_term(L)."}
+
 func c05Deep(w *h.W, emit func(c *c05Case, kind, detail string, size int)) {
-	for _, g := range c05LongGoals {
+	for _, g := range append(append([]string{}, c05CanonGoals...), c05LongGoals...) {
 		if !w.Mine() {
 			continue
 		}
-		c := &c05Case{Kind: "goal", Goal: fmt.Sprintf(g, 3000000), Setup: ":- dynamic(big/1).\n", Deep: true, Tag: "long list"}
+		goal := g
+		if strings.Contains(g, "%") {
+			goal = fmt.Sprintf(g, 3000000)
+		}
+		c := &c05Case{Kind: "goal", Goal: goal, Setup: ":- dynamic(big/1).\nmk(0, []) :- !.\nmk(N, [N|T]) :- N1 is N - 1, mk(N1, T).\n", Deep: true, Tag: "long list"}
 		w.WAL(c)
 		w.GuardFor(c, 6*time.Minute)
 		kind, detail := c05RunDeep(c)
@@ -791,6 +799,18 @@ func c05RunDeep(c *c05Case) (kind, detail string) {
 			kind, detail = "an unrecovered Go panic escaped Query/Next", fmt.Sprint(r)
 		}
 	}()
+	// The address space is limited to 8 GB while the case runs, four times the memory bound: a case that needs more
+	// dies of "fatal error: out of memory" here as it would on a smaller machine, instead of passing on a large one.
+	var old syscall.Rlimit
+	if syscall.Getrlimit(syscall.RLIMIT_AS, &old) == nil {
+		lim := old
+		if lim.Cur > 8<<30 { // "unlimited" is the largest value
+			lim.Cur = 8 << 30
+			if syscall.Setrlimit(syscall.RLIMIT_AS, &lim) == nil {
+				defer syscall.Setrlimit(syscall.RLIMIT_AS, &old)
+			}
+		}
+	}
 	p := c05NewInterp(false)
 	if err := p.Exec(c.Setup); err != nil {
 		return "the program does not load", err.Error()
@@ -913,7 +933,7 @@ func c05Replay(b []byte) (string, string, bool) {
 func init() {
 	h.Register(&h.Check{
 		ID:            "C05",
-		Rule:          "(a) ALL strings of <= L symbols over a 29-symbol token alphabet taken from the lexer's switch (atoms, variables, digits, '.', ',', '|', every bracket, '-', '+', '\\\\', quote characters, 0', 0x, :-, layout, %, /*, a non-ASCII letter, a float prefix) each as is, with '.', and with ' .\\n', handed to Exec and to Query; all byte strings of length 1 and (quick: every 7th; thorough: all) of length 2; (b) EVERY registered procedure (read from the interpreter through a verif-tagged accessor, so the matrix follows the code) except halt/0,1 x all tuples of 14 (thorough: 22) argument shapes for arity <= 3 and of 8 (arity 4, 5) / 6 shapes above (unbound, atoms incl. empty, [], integers incl. extremes, float, compound, proper/partial/improper list, string, a stream, callable and non-callable terms), first answer plus one retry then Close, on an interpreter with real streams and (quick: every 5th tuple) on the documented prolog.New(nil, nil); (c) EVERY evaluable functor of eval's dispatch tables (read through a verif-tagged accessor) x a 25-value operand grid (unbound, atom, integers incl. 63/64/-64/extremes, floats incl. -0.0, largest and smallest, compound, string, lists, nested error) for both operands, unary ones also over every unary functor nested inside (thorough: every binary too), each under is/2, three comparisons and catch/3; (d) every procedure of arity 1..4 x 7 kinds of stream argument (closed input/output, open text/binary input/output, at end, closed alias) in every argument position x all tuples of 10 other shapes (quick, arity 4: 5); (e) database histories: all conjunctions of <= 3 (thorough: 4) goals from a 20-goal menu that calls, retracts, asserts, abolishes and enumerates a dynamic predicate with three clauses while calls of it are open, with and without a final fail, up to 20 answers; (f) stream-state histories: all sequences of <= 3 (4) of 14 operations that open, close, alias and make current input/output streams (the standard streams included), each followed by each of 17 probes that use a stream; (g) 20 file names x 8 forms of include/ensure_loaded/consult (directive, initialization goal, between clauses, goal, retried goal, list notation) over an in-memory file system with self-including, mutually including and mutually loading files, a chain of 300 inclusions, a missing file, a file with a syntax error; (h) deep recursion: 12 recursion shapes (tail and non-tail counting, list construction and traversal, through call/1, catch/3, if-then-else, disjunction, mutual recursion, an error thrown at the bottom, append/3, findall/3 and ==/2 of a long list) at depths 100000 and 300000 under a 256 MB stack limit (the scaled equivalent of 1.2 million levels under Go's default limit, which is what fits into a 2 GB memory bound); (j) 17 files of malformed and well-formed text x 3 eof_actions x all sequences of <= 3 (4) of 6 stream operations (read/2, get_char/2, peek_char/2, at_end_of_stream/1, read_term/3, stream_property/2), each caught; (i) long lists and wide compounds: 22 goals that unify, compare, copy, collect the variables of, sort, assert, throw, call, write, take apart lists of 3 million elements and compounds of 3 million arguments (standing for 10 million under the default limit), first answer. Distinct = text or goal.",
+		Rule:          "(a) ALL strings of <= L symbols over a 29-symbol token alphabet taken from the lexer's switch (atoms, variables, digits, '.', ',', '|', every bracket, '-', '+', '\\\\', quote characters, 0', 0x, :-, layout, %, /*, a non-ASCII letter, a float prefix) each as is, with '.', and with ' .\\n', handed to Exec and to Query; all byte strings of length 1 and (quick: every 7th; thorough: all) of length 2; (b) EVERY registered procedure (read from the interpreter through a verif-tagged accessor, so the matrix follows the code) except halt/0,1 x all tuples of 14 (thorough: 22) argument shapes for arity <= 3 and of 8 (arity 4, 5) / 6 shapes above (unbound, atoms incl. empty, [], integers incl. extremes, float, compound, proper/partial/improper list, string, a stream, callable and non-callable terms), first answer plus one retry then Close, on an interpreter with real streams and (quick: every 5th tuple) on the documented prolog.New(nil, nil); (c) EVERY evaluable functor of eval's dispatch tables (read through a verif-tagged accessor) x a 25-value operand grid (unbound, atom, integers incl. 63/64/-64/extremes, floats incl. -0.0, largest and smallest, compound, string, lists, nested error) for both operands, unary ones also over every unary functor nested inside (thorough: every binary too), each under is/2, three comparisons and catch/3; (d) every procedure of arity 1..4 x 7 kinds of stream argument (closed input/output, open text/binary input/output, at end, closed alias) in every argument position x all tuples of 10 other shapes (quick, arity 4: 5); (e) database histories: all conjunctions of <= 3 (thorough: 4) goals from a 20-goal menu that calls, retracts, asserts, abolishes and enumerates a dynamic predicate with three clauses while calls of it are open, with and without a final fail, up to 20 answers; (f) stream-state histories: all sequences of <= 3 (4) of 14 operations that open, close, alias and make current input/output streams (the standard streams included), each followed by each of 17 probes that use a stream; (g) 20 file names x 8 forms of include/ensure_loaded/consult (directive, initialization goal, between clauses, goal, retried goal, list notation) over an in-memory file system with self-including, mutually including and mutually loading files, a chain of 300 inclusions, a missing file, a file with a syntax error; (h) deep recursion: 12 recursion shapes (tail and non-tail counting, list construction and traversal, through call/1, catch/3, if-then-else, disjunction, mutual recursion, an error thrown at the bottom, append/3, findall/3 and ==/2 of a long list) at depths 100000 and 300000 under a 256 MB stack limit (the scaled equivalent of 1.2 million levels under Go's default limit, which is what fits into a 2 GB memory bound); (j) 17 files of malformed and well-formed text x 3 eof_actions x all sequences of <= 3 (4) of 6 stream operations (read/2, get_char/2, peek_char/2, at_end_of_stream/1, read_term/3, stream_property/2), each caught; (i) long lists and wide compounds: 22 goals that unify, compare, copy, collect the variables of, sort, assert, throw, call, write, take apart lists of 3 million elements and compounds of 3 million arguments (standing for 10 million under the default limit), and 5 goals that write a list of 30000 elements in functional notation or test it for cycles, all with the address space limited to 8 GB (four times the memory bound), first answer. Distinct = text or goal.",
 		Explanation:   "state = a fresh (or regularly renewed) real interpreter in an isolated worker process; transition = one Exec/Query call; oracle: the worker process survives (a fatal runtime error is attributed to the exact input through a write-ahead record, re-running the batch in fine mode), the call returns (per-case watchdog), an error raised by a predicate is error(Formal, _) with an ISO formal error term, and no returned error is the residue of a recovered Go panic",
 		Assumptions:   []string{"workers run in an empty scratch directory with GOMAXPROCS=1 and a 256 MB goroutine stack limit so that unbounded recursion dies quickly", "a Go error returned for a text that does not parse is the API's way to report a syntax error and is accepted"},
 		Work:          c05Work,
